@@ -511,6 +511,9 @@ func RunRebuild(s *Scen, r *vk.Rand, a, b int, bin, base string, cycles int) {
 		} else if s.Prop == "C05" && cyc == 0 {
 			how = "stop"
 		}
+		if (s.Prop == "C07" || s.Prop == "C12") && (s.Case/100+cyc)%3 == 1 {
+			how = "snapkill"
+		}
 		if how == "shortstop" {
 			// the replica stalls for 1.5x the rpc deadline and then carries on: the controller must have given up on it
 			// (and detached it) rather than have sent the timed-out request again
@@ -562,6 +565,33 @@ func RunRebuild(s *Scen, r *vk.Rand, a, b int, bin, base string, cycles int) {
 			time.Sleep(time.Duration(r.Range(2300, 3800)) * time.Millisecond)
 			cl.Kill(x, false)
 			cl.event("replica %d hung for a while on an idle volume, then died", x.Idx)
+		} else if how == "snapkill" {
+			// the replica dies inside a volume snapshot, between two of the directory updates that make it up (strace
+			// attached to the process delivers SIGKILL on entry to the chosen call): after the data file was linked, after
+			// both links, or with everything in place but volume.meta. The other replicas complete the snapshot; the
+			// victim comes back with the leftovers and is rebuilt over them.
+			pt := []struct{ call, when, what string }{
+				{"linkat", "2", "after the snapshot's data file was linked"},
+				{"renameat", "2", "after both links, before the snapshot's metadata"},
+				{"renameat", "3", "with the snapshot's files complete, before volume.meta names the new head"},
+			}[(s.Case/100+cyc/3+r.Intn(3))%3]
+			x.held = true
+			atomic.StoreInt32(&x.Faulted, 1)
+			in, err := attachInjector(x.cmd.Process.Pid, pt.call, pt.call+":signal=SIGKILL:when="+pt.when, filepath.Join(cl.Base, fmt.Sprintf("snapkill-%d.log", cyc)))
+			if err == nil {
+				name := fmt.Sprintf("sk%d", cyc)
+				_, serr := cl.C.Snapshot(name)
+				for i := 0; i < 100 && x.Alive(); i++ {
+					time.Sleep(5 * time.Millisecond)
+				}
+				died := !x.Alive()
+				in.detach()
+				cl.event("snapshot %s requested with replica %d set to die %s: died=%v, snapshot error: %v", name, x.Idx, pt.what, died, serr)
+				if died {
+					s.Res.Count("replicas_killed_inside_a_snapshot:"+pt.call+"#"+pt.when, 1)
+				}
+			}
+			cl.Kill(x, false)
 		} else {
 			cl.Kill(x, r.Chance(30))
 		}
